@@ -274,6 +274,73 @@ def r6(ctx, R):
         R.check(ok, f'Sweeper.updateVariableCoeffs :: self.{attr} rebuilt with k when {gen} is k-dependent', w, f'self.{attr} = self.{getter}(.., k={k}) if self.{gen}.isKDependent()', [c.describe() for c in cs])
 
 
+REFRESHED = ('QI', 'QE')
+_CONTROL = """
+class demo(Sweeper):
+    def __init__(self, params, level):
+        super().__init__(params, level)
+        self.QI = self.get_Qdelta_implicit(qd_type=self.params.QI)
+        self.QmQI = self.coll.Qmat - self.QI
+        self.twice = 2 * self.QmQI
+"""
+
+
+def derived_from_refreshed(init_fns):
+    """attributes assigned in __init__ from an expression that reads self.QI / self.QE (the matrices updateVariableCoeffs rebuilds),
+    directly or through another such attribute: {attr: expression text}"""
+    derived = {}
+    changed = True
+    while changed:
+        changed = False
+        for fn in init_fns:
+            for s in ast.walk(fn):
+                if not isinstance(s, ast.Assign):
+                    continue
+                reads = {x.attr for x in ast.walk(s.value) if isinstance(x, ast.Attribute) and isinstance(x.value, ast.Name) and x.value.id == 'self'}
+                if not (reads & (set(REFRESHED) | set(derived))):
+                    continue
+                for t in s.targets:
+                    for e in (t.elts if isinstance(t, (ast.Tuple, ast.List)) else [t]):
+                        if isinstance(e, ast.Attribute) and isinstance(e.value, ast.Name) and e.value.id == 'self' and e.attr not in REFRESHED and e.attr not in derived:
+                            derived[e.attr] = ast.unparse(s.value)
+                            changed = True
+    return derived
+
+
+@rule('C02', 'C02.R6b', 'no stale copy of a refreshed matrix: an attribute built in __init__ from self.QI / self.QE is rebuilt by updateVariableCoeffs too (otherwise sweeps k >= 2 of a k-dependent preconditioner mix QD(k) with QD(1))', floor=30)
+def r6b(ctx, R):
+    repo = ctx.repo
+    ctl = derived_from_refreshed([f for f in ast.walk(ast.parse(_CONTROL)) if isinstance(f, ast.FunctionDef)])
+    R.check(sorted(ctl) == ['QmQI', 'twice'], 'positive control :: the analysis finds the cached splitting matrices of the embedded example', 'sa/rules/c02.py:_CONTROL', ['QmQI', 'twice'], sorted(ctl))
+    base = repo.cls('pySDC/core/sweeper.py', 'Sweeper')
+    for ci in repo.subclasses(base):
+        if not (repo.is_library(ci) or 'projects/DAE/sweepers' in ci.module.relpath):
+            continue
+        inits = [c.methods['__init__'] for c in ci.mro if isinstance(c, ClassInfo) and '__init__' in c.methods]
+        w = f'{ci.module.relpath}:{ci.name}.__init__'
+        R.fn(w)
+        d = derived_from_refreshed(inits)
+        upd = repo.resolve(ci, 'updateVariableCoeffs')
+        rebuilt = set()
+        if upd is not None:
+            for c in [x for x in ci.mro if isinstance(x, ClassInfo) and 'updateVariableCoeffs' in x.methods]:
+                for s in ast.walk(c.methods['updateVariableCoeffs']):
+                    if isinstance(s, ast.Assign):
+                        for t in s.targets:
+                            for e in (t.elts if isinstance(t, (ast.Tuple, ast.List)) else [t]):
+                                if isinstance(e, ast.Attribute) and ast.unparse(e.value) == 'self':
+                                    rebuilt.add(e.attr)
+        # only attributes that some other method of the class actually reads matter
+        read = set()
+        for c in ci.mro:
+            if isinstance(c, ClassInfo):
+                for name, f in c.methods.items():
+                    if name not in ('__init__',):
+                        read |= {x.attr for x in ast.walk(f) if isinstance(x, ast.Attribute) and isinstance(x.ctx, ast.Load) and isinstance(x.value, ast.Name) and x.value.id == 'self'}
+        stale = {k: v for k, v in d.items() if k not in rebuilt and k in read}
+        R.check(not stale, f'{ci.name} :: every matrix attribute derived from self.QI / self.QE is rebuilt together with it', w, 'no attribute cached from self.QI / self.QE in __init__ (or: rebuilt in updateVariableCoeffs)', stale)
+
+
 @rule('C02', 'C02.R7', 'node-parallel sweepers: reductions carry the same quadrature term as the serial sibling; dropped off-diagonals are asserted absent', floor=5)
 def r7(ctx, R):
     repo = ctx.repo
